@@ -23,6 +23,7 @@ def outputTable : List (String × Ops.OutputFn) := [
   ("register", Ops.outRegister),
   ("register_all", Ops.outRegisterAll),
   ("equity", Ops.outEquity),
+  ("selects", Ops.outSelects),
   ("baltxt", Ops.outBalanceTxt),
   ("probe", Ops.outProbe)
 ]
